@@ -4,6 +4,21 @@ from vlib.core import Check, ROOT
 from vlib.xh import Harness, Batch
 
 
+BLANK_WITNESS = '''\
+import sys, warnings, logging; warnings.simplefilter('ignore'); logging.disable(logging.CRITICAL)
+import formulas
+P = "'[b]S'!"
+d = {P + 'A1': 1, P + 'B1': '=SUM(%sA1:A3)' % P}
+mk = lambda: formulas.ExcelModel().from_dict(d).finish(complete=False)
+want = mk().calculate(inputs={P + 'A3': 5})[P + 'B1'].value[0, 0]
+got = mk().compile([P + 'A3'], [P + 'B1'])(5).value[0, 0]
+print('calculate with A3 = 5 gives B1 =', want, '; the function compiled for input A3 returns', got)
+if float(got) != float(want):
+    print('REPRODUCED: a compile input that is a blank cell of the model (known to a range only) is ignored'); sys.exit(1)
+sys.exit(0)
+'''
+
+
 def run(tier, seed):
     ck = Check('C08', tier, seed, level='exploration')
     import formulas.excel as EX, formulas.builder as FB
@@ -11,21 +26,22 @@ def run(tier, seed):
     ck.assume('template, input node list, output node list, formula and argument values are boolean selectors; each explored path runs the real compile() and the real calculate() natively and compares them',
               'argument values come from an 8-entry pool (number, fraction, logical, numeric text, text, zero, #DIV/0!, another number) chosen so that branch, error and array shape differ from the stored values')
     ck.out_of_scope('"every argument tuple": only pool values are reached (exploration, not proof)', 'input lists overlapping the output list',
-                    'range nodes as compile inputs', 'workbooks outside the three template families')
+                    'workbooks outside the three template families')
+    ck.check_known_witness('C08-blank-cell-as-compile-input', BLANK_WITNESS)
     quick = tier == 'quick'
     src = open(os.path.join(ROOT, 'harness', 'c08_compile.py')).read()
     hs, batch = [], Batch()
     T_ = 170 if quick else 1500
     try:
         for t in range(3):
-            for i in range(12):
-                s = src.replace('__T__', str(t)).replace('__I__', str(i)).replace('__F__', '0')
+            for i in range(15):
+                s = src.replace('__T__', str(t)).replace('__I__', str(i)).replace('__F__', '0').replace('__KNOWN_ABSENT__', 'True')
                 if quick:
                     s = s.replace('pre: sel(o0, o1, o2) < len(OUTPUTS)', 'pre: sel(o0, o1, o2) < len(OUTPUTS) and sel(b0, b1, b2) in (0, 3, 4, 6)')
                 h = Harness(ck, 'c08_model_t%d_i%d' % (t, i), s); hs.append(h)
                 batch.add(h, T_, only=['compiled_ok'], bounds='template %d, input list #%d, 5 output lists, argument values from the 8-entry pool%s; two successive calls' % (t, i, ' (second argument: 4 entries)' if quick else ''))
         for f in range(12):
-            s = src.replace('__T__', '0').replace('__I__', '0').replace('__F__', str(f))
+            s = src.replace('__T__', '0').replace('__I__', '0').replace('__F__', str(f)).replace('__KNOWN_ABSENT__', 'True')
             h = Harness(ck, 'c08_formula_f%d' % f, s); hs.append(h)
             batch.add(h, T_, only=['formula_ok'], bounds='formula #%d compiled alone, 8^3 argument triples in inputs-mapping order vs literals written in' % f)
         batch.run()
